@@ -21,6 +21,17 @@ maps* and compared with a direct construction from `list(H.nodes)` and
 
 plus sparse == dense (array and index maps) for every combination and index=False ==
 index=True.  Key = "<function>|<option / trigger class>|<clause>".
+
+Known finding, classified exactly: for weighted=True with a non-unit weight the result is compared
+with Zhou's matrix AND with the matrix that precisely the known defect produces (Dv = unweighted
+degree, W and De as in the textbook).  Equal to Zhou -> fine (PSD demanded); equal to the known-defect
+matrix -> key "...|weighted=True,non-unit-weights|not-textbook-or-not-PSD"; equal to neither ->
+"...|neither-textbook-nor-known-defect" (a VIOLATION even while the known finding is open).
+
+Kind "stale": the whole battery on a network, then 1-3 in-place edits through the public API that
+keep the node-ID set and the edge-ID set (add_node_to_edge, remove_node_from_edge, a changed weight,
+remove_edge + add_edge of other members under the same ID), then the whole battery again against the
+CURRENT members; failures that only appear after the edit carry the trigger tag "after-in-place-edit".
 """
 from itertools import permutations
 from math import factorial
@@ -43,6 +54,8 @@ RULE = (
     "the whole battery: incidence order{None,0..4} x sparse; adjacency order{None,0..3} x s{1,2,3} x weighted x sparse; degree x order; "
     "intersection profile x order x sparse; clique motif x sparse; tensor order{0..3} x normalized; laplacian order{1..4} x rescale x sparse; "
     "3 multiorder (orders, weights) lists x rescale x sparse; normalized laplacian x weighted x sparse; index=False on a seeded third of the calls. "
+    "edge weights: none / unit / positive ints+floats / some 0 and 0.0 / partly missing (default 1) / numpy scalars. "
+    "kind stale = battery, 1-3 in-place edits keeping both ID sets, battery again on the same object. "
     "one evaluation = one returned array (and its maps) compared with the brute-force construction. "
     "distinct_nontrivial = distinct (function, options, network structure) with at least one node and one edge"
 )
@@ -54,7 +67,9 @@ ASSUMPTIONS = [
     "of the requested order; an *empty* node index map next to an all-zero (n, n) / (n,) / (n,)*(d+1) result when no edge of the requested order exists "
     "(any row assignment is then consistent); otherwise the map must be a bijection range(n) -> nodes",
     "Laplacians are driven with orders >= 1 only (order 0 with rescale_per_node divides by zero; the textbook L_d is defined for d >= 1)",
-    "normalized_hypergraph_laplacian: only strictly positive weights, no empty edge (textbook matrix undefined otherwise); with isolated nodes the documented XGIError is expected and counted",
+    "normalized_hypergraph_laplacian: non-negative weights (0 and 0.0 included) on inputs where Zhou's matrix is defined: no empty edge, every node of positive weighted degree "
+    "(when an in-place weight change makes a weighted degree zero the call is made, a raise or a return is counted, nothing is asserted); with isolated nodes the documented XGIError is expected and counted",
+    "the known finding is recognised only when the result equals, within 1e-9, the matrix computed with the unweighted vertex degree; any other deviation in the same input class has its own key",
     "empty edges (order -1) occur in ~6% of the hypergraphs for all functions except the normalized Laplacian",
     "the `weight` callback of incidence_matrix is not part of the statement and is left at its default",
 ]
@@ -71,8 +86,8 @@ FUNCS = (
 
 def plan(tier):
     if tier == "quick":
-        return {"random": 280, "degenerate": 70}
-    return {"random": 40000, "degenerate": 8000}
+        return {"random": 280, "degenerate": 70, "stale": 60}
+    return {"random": 40000, "degenerate": 8000, "stale": 6000}
 
 
 def floors(tier):
@@ -90,6 +105,9 @@ def floors(tier):
         "normalized:weighted=True,unit-weights": 30, "normalized:weighted=True,non-unit-weights": 30, "normalized:weighted=False": 60,
         "normalized:rejected-isolates": 20,
         "adjacency:s>1-and-count>=s": 30,
+        "normalized:weighted=True,zero-weight-present": 25, "normalized:weighted=True,numpy-scalar-weights": 15,
+        "stale:completed": 50, "stale:members-changed": 25,
+        **{f"stale:first-edit:{m}": 8 for m in MUTATIONS},
     })
     f.update({f"labels:{k}": 15 for k in LABEL_KINDS})
     return f
@@ -107,7 +125,47 @@ def _node_pool(rng, kind):
     return rng.sample([0, 3, -4, 2.5, "a", "b", "n10", "n2", 17, "x"], k)  # mixed
 
 
-WEIGHT_KINDS = ("none", "unit", "non-unit", "none", "partial", "non-unit")
+WEIGHT_KINDS = ("none", "unit", "non-unit", "zero-some", "partial", "numpy", "non-unit", "zero-some")
+MUTATIONS = ("add_node_to_edge", "remove_node_from_edge", "set-weight", "readd-same-id")
+KNOWN_CLAUSE = "not-textbook-or-not-PSD"
+
+
+def draw_weights(rng, wk, edges):
+    """One attribute dict per edge.  Weights are non-negative (int / float / numpy scalars, 0 and 0.0 included, missing = 1);
+    every node that belongs to an edge keeps a positive weighted degree, so Zhou's matrix stays defined."""
+    out = []
+    for _ in edges:
+        a, r = {}, rng.random()
+        if wk == "unit" and r < 0.7:
+            a["weight"] = rng.choice((1, 1.0, np.float64(1.0)))
+        elif wk == "non-unit":
+            a["weight"] = rng.choice((2, 5, 0.5, 3.75, 1, 10))
+        elif wk == "partial" and r < 0.5:
+            a["weight"] = rng.choice((2, 0.25, 7, 1.5))
+        elif wk == "numpy" and r < 0.75:
+            a["weight"] = rng.choice((np.float64(2.5), np.int64(3), np.float32(0.5), np.float64(0.0), np.int64(1), np.int64(0)))
+        elif wk == "zero-some":
+            if r < 0.35:
+                a["weight"] = rng.choice((0, 0.0))
+            elif r < 0.75:
+                a["weight"] = rng.choice((2, 0.5, 1, 3.0))
+        out.append(a)
+    if wk in ("zero-some", "numpy") and edges:
+        w = lambda j: out[j].get("weight", 1)
+        deg = lambda v: sum(w(j) for j, e in enumerate(edges) if v in e)
+        if wk == "zero-some" and all(w(j) != 0 for j in range(len(edges))):
+            # make sure a zero weight is present whenever one edge can carry it
+            cand = [j for j, e in enumerate(edges) if e and all(deg(v) - w(j) > 0 for v in e)]
+            if cand:
+                out[rng.choice(cand)]["weight"] = rng.choice((0, 0.0))
+        for v in {v for e in edges for v in e}:
+            if deg(v) <= 0:
+                j = rng.choice([j for j, e in enumerate(edges) if v in e])
+                if rng.random() < 0.5:
+                    out[j].pop("weight")
+                else:
+                    out[j]["weight"] = rng.choice((2, 0.5))
+    return out
 
 
 def build(rng, kind, idx):
@@ -161,14 +219,7 @@ def build(rng, kind, idx):
     # weights for the normalised Laplacian
     wk = WEIGHT_KINDS[(idx // len(LABEL_KINDS)) % len(WEIGHT_KINDS)]
     weights = {}
-    for e, i in zip(edges, ids):
-        attr = {}
-        if wk == "unit" and rng.random() < 0.7:
-            attr["weight"] = rng.choice((1, 1.0))
-        elif wk == "non-unit":
-            attr["weight"] = rng.choice((2, 5, 0.5, 3.75, 1, 10))
-        elif wk == "partial" and rng.random() < 0.5:
-            attr["weight"] = rng.choice((2, 0.25, 7))
+    for e, i, attr in zip(edges, ids, draw_weights(rng, wk, edges)):
         if i is None:
             before = set(H.edges)
             H.add_edge(list(e), **attr)
@@ -228,16 +279,22 @@ class Truth:
                 out[key] = out.get(key, 0.0) + w * x / mean
         return out
 
-    def normalized(self, weights):
+    def weighted_degree(self, weights):
         dv = {v: 0.0 for v in self.nodes}
         for e, m in self.mem.items():
             for v in m:
-                dv[v] += weights[e]
+                dv[v] += float(weights[e])
+        return dv
+
+    def normalized(self, weights, unweighted_dv=False):
+        """Zhou et al.; with unweighted_dv=True the matrix the *known* defect produces: Dv counts the edges of a node while
+        W and De are as in the textbook."""
+        dv = self.weighted_degree({e: 1 for e in self.mem} if unweighted_dv else weights)
         out = {(v, v): 1.0 for v in self.nodes}
         for e, m in self.mem.items():
             for u in m:
                 for v in m:
-                    out[(u, v)] = out.get((u, v), 0.0) - weights[e] / len(m) / (dv[u] * dv[v]) ** 0.5
+                    out[(u, v)] = out.get((u, v), 0.0) - float(weights[e]) / len(m) / (dv[u] * dv[v]) ** 0.5
         return out
 
 
@@ -280,6 +337,8 @@ def node_square(M, rowdict, truth, exp, tol, integer_zero_ok=True):
 def lam_min(M):
     if M.shape[0] == 0:
         return 0.0
+    if not np.all(np.isfinite(M)):
+        return float("-inf")
     return float(np.linalg.eigvalsh((M + M.T) / 2).min())
 
 
@@ -291,18 +350,24 @@ def psd(M):
 # the battery
 # ---------------------------------------------------------------------------------
 class Battery:
-    def __init__(self, mon, rng, H, weights, desc):
-        self.mon, self.rng, self.H, self.weights, self.desc = mon, rng, H, weights, desc
+    def __init__(self, mon, rng, H, weights, desc, tag=None, untagged=()):
+        self.mon, self.rng, self.H, self.weights, self.desc, self.tag = mon, rng, H, weights, desc, tag
+        self.untagged = set(untagged)  # functions that already failed before the edit: same mechanism, same key
         self.t = Truth(H)
         self.struct = (tuple(map(repr, self.t.nodes)), tuple((repr(e), tuple(sorted(map(repr, m)))) for e, m in self.t.mem.items()))
         self.failed = set()
+        self.failed_other = set()
 
     def witness(self, call):
         return f"{call}\non {snap.pretty(self.H)}\n({self.desc})"
 
     def fire(self, fn, trig, clause, call, text):
+        if self.tag and clause != KNOWN_CLAUSE and fn not in self.untagged:  # the known defect is the same mechanism before and after an edit
+            trig = f"{trig},{self.tag}"
         key = f"{fn}|{trig}|{clause}"
         self.failed.add(fn)
+        if clause != KNOWN_CLAUSE:
+            self.failed_other.add(fn)
         self.mon.fail(key, f"{call}: {text}", self.witness(call))
 
     def seen(self, fn, opts):
@@ -592,11 +657,27 @@ class Battery:
                         self.mon.note("normalized:rejected-isolates")
             return
         nonunit = any(x != 1 for x in self.weights.values())
+        haszero = any(x == 0 for x in self.weights.values())
+        undefined = any(d <= 0 for d in self.t.weighted_degree(self.weights).values())
         for w in (False, True):
+            if w and undefined:
+                # a node of zero weighted degree: Zhou's matrix is undefined, nothing is asserted
+                for sp in (True, False):
+                    try:
+                        xgi.normalized_hypergraph_laplacian(self.H, weighted=True, sparse=sp, index=True)
+                        self.mon.note("normalized:zero-weighted-degree:returned(not asserted)")
+                    except XGIError:
+                        self.mon.note("normalized:zero-weighted-degree:rejected")
+                continue
             cls = "weighted=False" if not w else ("weighted=True,non-unit-weights" if nonunit else "weighted=True,unit-weights")
             trig = "degenerate:no-nodes" if self.t.n == 0 else cls
             self.mon.note(f"normalized:{cls}")
+            if w and haszero:
+                self.mon.note("normalized:weighted=True,zero-weight-present")
+            if w and any(isinstance(x, np.generic) for x in self.weights.values()):
+                self.mon.note("normalized:weighted=True,numpy-scalar-weights")
             exp = self.t.normalized(self.weights if w else {e: 1 for e in self.t.mem})
+            known = self.t.normalized(self.weights, unweighted_dv=True) if w and nonunit else None
             res = {}
             for sp in (True, False):
                 kw = dict(weighted=w, sparse=sp)
@@ -606,16 +687,26 @@ class Battery:
                 self.seen(fn, (w, sp, tuple(sorted(map(repr, self.weights.items()))) if w else ()))
                 M = dense(r[0])
                 if w and nonunit and self.t.n:
-                    # one mechanism, one key: the matrix is not Zhou's and/or not PSD
-                    self.mon.note("psd-checked")
+                    # exact classification: Zhou's matrix -> fine (then PSD is demanded like everywhere else);
+                    # exactly the matrix of the known defect (unweighted Dv) -> the known key; anything else -> another key
                     bad = node_square(M, r[1], self.t, exp, 1e-9)
                     if bad and bad[0] in ("shape-wrong", "index-map-wrong"):
                         self.fire(fn, trig, bad[0], call, bad[1])
-                    elif not np.allclose(M, M.T, rtol=0, atol=1e-9):
+                    elif not np.allclose(M, M.T, rtol=0, atol=1e-9, equal_nan=True):
                         self.fire(fn, trig, "not-symmetric", call, f"got\n{M}")
-                    elif bad or not psd(M):
-                        self.fire(fn, trig, "not-textbook-or-not-PSD", call,
-                                  f"lambda_min = {lam_min(M)}; weights {self.weights}; " + (bad[1] if bad else "entries agree with Zhou et al."))
+                    elif not bad:
+                        self.mon.note("normalized:non-unit:equals-textbook")
+                        self.mon.note("psd-checked")
+                        if not psd(M):
+                            self.fire(fn, trig, "not-PSD", call, f"lambda_min = {lam_min(M)}\n{M}")
+                    elif node_square(M, r[1], self.t, known, 1e-9) is None:
+                        self.mon.note("normalized:non-unit:equals-known-defect")
+                        self.fire(fn, trig, KNOWN_CLAUSE, call,
+                                  f"the result is exactly I - Dv^-1/2 H W De^-1 H^T Dv^-1/2 with the UNWEIGHTED vertex degree; lambda_min = {lam_min(M)}; "
+                                  f"weights {self.weights}; " + bad[1])
+                    else:
+                        self.fire(fn, trig, "neither-textbook-nor-known-defect", call,
+                                  f"weights {self.weights}; the result is neither Zhou's matrix nor the matrix of the known unweighted-degree defect; lambda_min = {lam_min(M)}; " + bad[1])
                 else:
                     self._lap_clauses(fn, trig, call, M, r[1], exp, False, True)
                 self.noindex(fn, trig, call, xgi.normalized_hypergraph_laplacian, kw, r[0])
@@ -627,7 +718,91 @@ class Battery:
             part()
 
 
+def mutate(rng, H, weights, first):
+    """1-3 in-place edits through the public API that keep the node-ID set and the edge-ID set; -> list of descriptions."""
+    done = []
+    start = MUTATIONS.index(first)
+    for step in range(rng.randint(1, 3)):
+        nodes = list(H.nodes)
+        mem = {e: set(m) for e, m in H.edges.members(dtype=dict).items()}
+        order = [MUTATIONS[(start + j) % 4] for j in range(4)] if step == 0 else rng.sample(MUTATIONS, 4)
+        for mut in order:
+            if mut == "add_node_to_edge":
+                cand = [(e, v) for e, m in mem.items() for v in nodes if v not in m]
+                if cand:
+                    e, v = rng.choice(cand)
+                    H.add_node_to_edge(e, v)
+                    done.append(f"H.add_node_to_edge({e!r}, {v!r})")
+            elif mut == "remove_node_from_edge":
+                cand = [(e, v) for e, m in mem.items() if len(m) >= 2 for v in m]
+                if cand:
+                    e, v = rng.choice(cand)
+                    H.remove_node_from_edge(e, v)
+                    done.append(f"H.remove_node_from_edge({e!r}, {v!r})")
+            elif mut == "set-weight":
+                if mem:
+                    e = rng.choice(list(mem))
+                    w = rng.choice([x for x in (0, 0.0, 2, 0.5, 1, np.float64(4.0), 7) if x != weights[e]])
+                    H.set_edge_attributes({e: w}, name="weight")
+                    weights[e] = w
+                    done.append(f"H.set_edge_attributes({{{e!r}: {w!r}}}, name='weight')")
+            else:
+                if mem and len(nodes) >= 2:
+                    e = rng.choice(list(mem))
+                    new = None
+                    for _ in range(5):
+                        c = ops.rand_members(rng, nodes, 1, 4)
+                        if set(c) != mem[e]:
+                            new = c
+                            break
+                    if new is not None:
+                        attr = {"weight": rng.choice((2, 0.5, 0, 3.0))} if rng.random() < 0.5 else {}
+                        H.remove_edge(e)
+                        H.add_edge(list(new), idx=e, **attr)
+                        weights.pop(e)
+                        weights[e] = attr.get("weight", 1)
+                        done.append(f"H.remove_edge({e!r}); H.add_edge({new!r}, idx={e!r}, **{attr!r})")
+            if len(done) > step:
+                done[-1] = (mut, done[-1])
+                break
+        if len(done) <= step:
+            break
+    return done
+
+
+def run_stale(mon, idx, rng):
+    """Same-object staleness: whole battery, in-place edits that keep both ID sets, whole battery again against the CURRENT members."""
+    H, weights, desc, lk = build(rng, "stale", idx)
+    if snap.inv(H) or not H.num_edges:
+        mon.note("discarded:invalid-start-state")
+        return
+    mon.note(f"labels:{lk}")
+    b1 = Battery(mon, rng, H, weights, desc)
+    b1.run()
+    ids = (set(H.nodes), set(H.edges))
+    before = Truth(H)
+    edits = mutate(rng, H, weights, MUTATIONS[idx % 4])
+    if not edits:
+        mon.note("stale:no-edit-applicable")
+        return
+    if snap.inv(H) or (set(H.nodes), set(H.edges)) != ids or set(weights) != ids[1]:
+        mon.note("stale:discarded-after-edit")
+        return
+    after = Truth(H)
+    mon.note("stale:first-edit:" + edits[0][0])
+    edits = [text for _, text in edits]
+    if before.mem != after.mem:
+        mon.note("stale:members-changed")
+    b2 = Battery(mon, rng, H, weights, desc + "; computed once, then edited in place: " + "; ".join(edits), tag="after-in-place-edit", untagged=b1.failed_other)
+    b2.run()
+    mon.note("stale:completed")
+    if not b1.failed and not b2.failed:
+        mon.sample(f"stale: {desc}; edits {edits}; now {snap.pretty(H)}")
+
+
 def run_case(mon, kind, idx, rng):
+    if kind == "stale":
+        return run_stale(mon, idx, rng)
     H, weights, desc, lk = build(rng, kind, idx)
     bad = snap.inv(H)
     if bad:
